@@ -358,6 +358,12 @@ func (n *Node[T]) Accept(ctx context.Context, block Block) (ExecutedBlock[T], er
 						return
 					}
 
+					if response.id != chunkCert.ChunkID {
+						// a valid chunk, but not the one this certificate references
+						result <- ErrInvalidChunk
+						return
+					}
+
 					if _, err := n.storage.VerifyRemoteChunk(response); err != nil {
 						result <- err
 						return
